@@ -210,13 +210,33 @@ def _find_shebang(source):
     if isinstance(source, bytes):
         shebang = re.match(br'^#![^\r\n]*', source)
         if shebang:
-            return shebang.group().decode()
+            return shebang.group().decode(_source_encoding(source), 'replace')
     else:
         shebang = re.match(r'^#![^\r\n]*', source)
         if shebang:
             return shebang.group()
 
     return None
+
+
+def _source_encoding(source):
+    """
+    Find the encoding declared by a PEP 263 coding cookie in the first two lines of bytes source
+    """
+
+    for line in re.split(br'\r\n|\r|\n', source, maxsplit=2)[:2]:
+        cookie = re.match(br'^[ \t\f]*#.*?coding[:=][ \t]*([-\w.]+)', line)
+        if cookie:
+            try:
+                encoding = cookie.group(1).decode('ascii')
+                ''.encode(encoding)
+                return encoding
+            except (LookupError, UnicodeDecodeError):
+                break
+        if not re.match(br'^[ \t\f]*(?:#.*)?$', line):
+            break
+
+    return 'utf-8'
 
 
 def unparse(module):
